@@ -14,8 +14,9 @@
 (*  {"op":"ilogp","k":n,"off":-1|0|1,"res":n} ilog_2(2^k + off), k <= 63    *)
 (*  {"op":"almost","cls":s,"res":b}           is_almost(v1, v2, eps) with   *)
 (*        the exact position of |v1 - v2| relative to eps (Utils!AlmostOK)  *)
-(*  {"op":"lerp","y0":K,"y1":K,"f":K,"res":K,"first":b}  linear_interp; a   *)
-(*        series with ascending f between the same end points follows a     *)
+(*  {"op":"lerp","y0":K,"y1":K,"f":K,"res":K,"q0":Q,"q1":Q,"qr":Q,"first":b} *)
+(*        linear_interp with |y0|, |y1| <= 2 (K: order keys, Q: Q24 images); *)
+(*        a series with ascending f between the same end points follows a   *)
 (*        "first" event                                                     *)
 (***************************************************************************)
 EXTENDS Utils, TraceLib, Tables
@@ -52,12 +53,12 @@ TAlmost == e.op = "almost" /\ UNCHANGED <<nextKey, sawNan, lastR, lastF>>
            /\ Step(IF AlmostOK(e.cls, e.res) THEN {} ELSE {<<"C14", "is-almost">>})
 
 LerpTags ==
-       (IF e.res = NaNKey \/ ~InHull(e.res, e.y0, e.y1) THEN {<<"C03", "interp-outside-hull">>, <<"C12", "interp-outside-hull">>} ELSE {})
+       (IF e.res = NaNKey \/ ~InHull(e.qr, e.q0, e.q1) THEN {<<"C03", "interp-outside-hull">>, <<"C12", "interp-outside-hull">>} ELSE {})
   \cup (IF e.f = 0 /\ e.res # e.y0 THEN {<<"C03", "interp-at-zero">>, <<"C12", "interp-at-zero">>} ELSE {})
   \cup (IF ~e.first /\ e.f >= lastF /\ e.res # NaNKey /\ lastR # NaNKey
-           /\ ((e.y0 <= e.y1 /\ e.res < lastR) \/ (e.y0 >= e.y1 /\ e.res > lastR))
+           /\ ((e.y0 <= e.y1 /\ e.qr < lastR - 2) \/ (e.y0 >= e.y1 /\ e.qr > lastR + 2))
           THEN {<<"C03", "interp-not-monotone">>, <<"C12", "interp-not-monotone">>} ELSE {})
-TLerp == e.op = "lerp" /\ lastR' = e.res /\ lastF' = e.f /\ UNCHANGED <<nextKey, sawNan>> /\ Step(LerpTags)
+TLerp == e.op = "lerp" /\ lastR' = (IF e.res = NaNKey THEN NaNKey ELSE e.qr) /\ lastF' = e.f /\ UNCHANGED <<nextKey, sawNan>> /\ Step(LerpTags)
 
 TMeta  == e.op \in {"meta", "new"} /\ UNCHANGED <<nextKey, sawNan, lastR, lastF>> /\ l' = l + 1
 TPanic == e.op = "panic" /\ UNCHANGED <<nextKey, sawNan, lastR, lastF>> /\ Step({<<"C17", "panic">>})
